@@ -876,12 +876,14 @@ func disassembleText(txt []byte, size int) string {
 	if len(txt) > size {
 		size--
 		var p int
-		for i := 0; i < size; i++ {
-			_, s := utf8.DecodeRune(txt)
+		for i := 0; i < size && p < len(txt); i++ {
+			_, s := utf8.DecodeRune(txt[p:])
 			p += s
 		}
-		txt = txt[:p]
-		truncated = true
+		if p < len(txt) {
+			txt = txt[:p]
+			truncated = true
+		}
 	}
 	b.Write(txt)
 	if truncated {
